@@ -29,7 +29,7 @@ type evmprof struct{ id string }
 func init() {
 	register("C05", func() e.Profile { return &evmprof{"C05"} })
 	register("C02", func() e.Profile { return &evmprof{"C02"} })
-	register("C04", func() e.Profile { return &evmprof{"C04"} })
+	register("C04", newC04)
 }
 
 func (p *evmprof) ID() string { return p.id }
